@@ -804,9 +804,22 @@ func runC03(c *core.Ctx) {
 			}},
 			{"Query by SDL, Mutation and Subscription by AddTypes", "type Query { i: Int }\n", func() []ggql.Type { return []ggql.Type{obj("Mutation", "m"), obj("Subscription", "s")} }},
 			{"Mutation by SDL only, Query by AddTypes", "type Mutation { m: Int }\n", func() []ggql.Type { return []ggql.Type{obj("Query", "i")} }},
+			// an interface, its implementer, a union, an enum and an input built by hand
+			{"interface, union, enum and input by AddTypes", "", func() []ggql.Type {
+				it := &ggql.Interface{Base: ggql.Base{N: "Node"}}
+				_ = it.AddField(&ggql.FieldDef{Base: ggql.Base{N: "i"}, Type: ref("Int")})
+				q := obj("Query", "i")
+				q.Interfaces = append(q.Interfaces, ref("Node"))
+				_ = q.AddField(&ggql.FieldDef{Base: ggql.Base{N: "node"}, Type: ref("Node")})
+				_ = q.AddField(&ggql.FieldDef{Base: ggql.Base{N: "u"}, Type: ref("U")})
+				u := &ggql.Union{Base: ggql.Base{N: "U"}, Members: []ggql.Type{ref("Query")}}
+				return []ggql.Type{it, q, u}
+			}},
 		}
 		requests := []string{"{ i }", "{ __typename }", "{ __schema { queryType { name } mutationType { name } subscriptionType { name } types { name } } }", "query { i }", "mutation { m }",
-			"subscription { s }", "{ __type(name: \"Query\") { fields { name } } }", "{ zz }", "fragment F on Query { i } { ...F }"}
+			"subscription { s }", "{ __type(name: \"Query\") { fields { name } } }", "{ zz }", "fragment F on Query { i } { ...F }",
+			"{ __type(name: \"Node\") { possibleTypes { name } } u: __type(name: \"U\") { possibleTypes { name } } }", "{ __schema { types { name possibleTypes { name } interfaces { name } } } }",
+			"{ node { __typename i ... on Query { i } } u { __typename } }"}
 		for _, su := range setups {
 			for _, rq := range requests {
 				if !c.NextCase("root built by AddTypes (" + su.name + ") ResolveString: " + rq) {
